@@ -145,6 +145,19 @@ def corner_ops(rng, spec, guarded):
         if jn not in placed and used:
             sn = rng.choice(sorted(used))
             ops.append({"op": "listop", "kind": "steps", "name": sn, "attr": "jobs", "method": "append", "args": [jn]})
+    # a grouped update of two inputs whose dependents overlap, one of them with a dependent of its own that feeds a
+    # shared one (a job's need and its server's capacity): the order of the merged chain matters
+    reach_all = reachable_spec_names(spec)
+    for jn, j in spec["jobs"].items():
+        svn = j["server"]
+        if jn in reach_all and svn in reach_all and spec["servers"][svn].get("cls", "Server") == "Server":
+            c1 = {"op": "setq", "kind": "jobs", "name": jn, "param": "compute_needed",
+                  "value": {"m": round(j["compute_needed"]["m"] * rng.choice([0.5, 1.5]), 9), "u": j["compute_needed"]["u"]}}
+            sv = spec["servers"][svn]
+            c2 = {"op": "setq", "kind": "servers", "name": svn, "param": "compute",
+                  "value": {"m": sv["compute"]["m"] * 2, "u": sv["compute"]["u"]}}
+            ops.append({"op": "group", "changes": rng.choice([[c1, c2], [c2, c1]]), "kind": "jobs"})
+            break
     if not ops:
         return None
     op = rng.choice(ops)
